@@ -177,7 +177,7 @@ CHECKS = {
         "groups": [
             {"pkg": "Havoc/pkg/agent", "with": ["Havoc/pkg/logr", "Havoc/pkg/common/parser", "Havoc/pkg/socks"], "entries": ["H_c02_build"], "flags": ["-tags", "uf_aes"], "shards": 2},
             {"pkg": "Havoc/pkg/agent", "with": ["Havoc/pkg/logr", "Havoc/pkg/common/parser", "Havoc/pkg/socks"], "entries": ["H_c02_prepare"], "flags": ["-tags", "uf_aes"], "shards": 10},
-            {"pkg": "Havoc/pkg/agent", "with": ["Havoc/pkg/logr", "Havoc/pkg/common/parser", "Havoc/pkg/socks"], "entries": ["H_c02_fs"], "flags": ["-tags", "uf_aes,c02fs"], "shards": 6, "no_native_witness": True, "no_native_replay": True},
+            {"pkg": "Havoc/pkg/agent", "with": ["Havoc/pkg/logr", "Havoc/pkg/common/parser", "Havoc/pkg/socks"], "entries": ["H_c02_fs", "H_c02_proc"], "flags": ["-tags", "uf_aes,c02fs"], "split": True, "no_native_witness": True, "no_native_replay": True},
             {"pkg": "Havoc/pkg/agent", "with": ["Havoc/pkg/logr", "Havoc/pkg/common/parser", "Havoc/pkg/socks"], "entries": ["H_c02_token"], "flags": ["-tags", "uf_aes"], "shards": 9},
         ],
         "bounds": "framing: one task with 0..2 arguments, or two tasks with 0..1 arguments each (thorough: 0..2), of the 11 supported Go types (strings/byte slices of 0..2 arbitrary bytes), arbitrary command and request ids, AES-CTR as uninterpreted key stream; TaskPrepare: EXIT, SLEEP (1..2 digit delay/jitter), JOB (4 sub-commands, 1..2 digit id), TRANSFER (4 sub-commands, any 8-hex-digit file id), PROC kill/modules (1..3 digit pid), PROC_LIST, PPIDSPOOF, PIVOT list/disconnect (any 8-hex-digit id); task id any 8 hex digits (EXIT) or fixed; file-system commands cd / remove / mkdir / pwd / dir (console form: four flags, three filters) / dir (explorer form) with a drive prefix and two arbitrary printable path characters, compared field by field with the read order of the Demon's CommandFS.",
@@ -237,7 +237,7 @@ LEVELS = {
     "C09": {"text": "Bounded symbolic execution of the real link bookkeeping (cmd/server Died/UnlinkFromAll/LinkAdd/LinkRemove, TaskDispatch SMB connect/disconnect) from every forest over a 3-agent universe; the forest invariant relating parent pointers, link lists and link rows is asserted after one event (inductive step).",
             "note": "Database = relational model of the four SQL statements in pkg/db/links.go; websocket/JSON stubbed."},
     "C02": {"text": "Bounded symbolic execution of the real BuildPayloadMessage and of TaskPrepare -> queue -> check-in reply for a stated subset of commands against a reference reader that mirrors Parser.c/Command.c; parameter digits, ids, argument values and types are symbolic; encryption is an uninterpreted key stream so a body sent in clear is a counterexample.",
-            "note": "Covers the framing layer fully within the bound and 25 command forms (UTF-16 encoding of ASCII text is a harness model in the FS harness); the remaining commands are outside. Reference read order transcribed from Command.c (DESIGN.md appendix A)."},
+            "note": "Covers the framing layer fully within the bound and 28 command forms (UTF-16 encoding of ASCII text is a harness model in the FS harness); the remaining commands are outside. Reference read order transcribed from Command.c (DESIGN.md appendix A)."},
     "C08": {"text": "Bounded symbolic execution of the real PivotAddJob/BuildPayloadMessage wrapping for chains of 1..3 hops, unwrapped by a reference implementation of the Demon's pipe framing with each hop's own key; AES-CTR is an uninterpreted key stream so a layer encrypted under the wrong key cannot decode.",
             "note": "Trusted: go/ssa, gosx, z3 (QF_UFBV), the reference decoder transcribed from Command.c/TransportSmb.c."},
     "C04": {"text": "Bounded symbolic execution of GetQueuedJobs/AddJobToQueue/UploadMemFileInChunks against a FIFO reference; sizes are symbolic so the 30 MB boundary and chunk boundaries are decided by the solver, not sampled.",
